@@ -97,7 +97,9 @@ func build(prop string, cfg propCfg) (string, error) {
 	if err := os.MkdirAll(binDir, 0o755); err != nil {
 		return "", err
 	}
-	bin := filepath.Join(binDir, strings.ToLower(prop)+".test")
+	// a private file per invocation: concurrent runs of the same check never execute or overwrite each
+	// other's binary; release() publishes it under the stable name afterwards (development aid)
+	bin := filepath.Join(binDir, fmt.Sprintf("%s.%d.test", strings.ToLower(prop), os.Getpid()))
 	args := []string{"test", "-c", "-tags", "verif", "-vet=off", "-o", bin}
 	if cfg.Race {
 		args = append(args, "-race")
@@ -116,7 +118,7 @@ func build(prop string, cfg propCfg) (string, error) {
 		}
 		gs, _ := os.ReadFile(filepath.Join(root, "go.sum"))
 		_ = os.WriteFile(filepath.Join(root, ".work", "alt-"+tag+".sum"), gs, 0o644)
-		bin = filepath.Join(binDir, strings.ToLower(prop)+"-"+tag+".test")
+		bin = filepath.Join(binDir, fmt.Sprintf("%s-%s.%d.test", strings.ToLower(prop), tag, os.Getpid()))
 		args[6] = bin
 		args = append(args, "-modfile", mf)
 	}
@@ -128,6 +130,29 @@ func build(prop string, cfg propCfg) (string, error) {
 		return "", fmt.Errorf("build failed: %v\n%s", err, out)
 	}
 	return bin, nil
+}
+
+// release renames a private per-invocation path (name.<pid>.ext or name.<pid>) to its stable name, or
+// removes it for runs against a scratch copy of otto.
+func release(path string) string {
+	pid := fmt.Sprintf(".%d", os.Getpid())
+	stable := strings.Replace(path, pid, "", 1)
+	if stable == path {
+		return path
+	}
+	if alt := os.Getenv("VERIF_REPO"); alt != "" && alt != "/repo" && strings.HasSuffix(path, ".test") {
+		_ = os.Remove(path)
+		return path
+	}
+	_ = os.RemoveAll(stable)
+	if err := os.Rename(path, stable); err != nil {
+		return path
+	}
+	return stable
+}
+
+func stableName(path string) string {
+	return strings.Replace(path, fmt.Sprintf(".%d", os.Getpid()), "", 1)
 }
 
 func hash(s string) uint32 {
@@ -224,9 +249,13 @@ func run(prop, tier string) int {
 		fmt.Fprintln(os.Stderr, err)
 		return 2
 	}
-	outDir := filepath.Join(root, ".work", "out", prop+"-"+tier)
+	defer release(bin)
+	// private per invocation (a concurrent run of the same check must not read these logs), published
+	// under the stable name .work/out/<prop>-<tier> when the run is over
+	outDir := filepath.Join(root, ".work", "out", fmt.Sprintf("%s-%s.%d", prop, tier, os.Getpid()))
 	_ = os.RemoveAll(outDir)
 	_ = os.MkdirAll(outDir, 0o755)
+	defer release(outDir)
 	_ = os.RemoveAll(filepath.Join(root, "props", strings.ToLower(prop), "testdata", "rapid"))
 
 	nshards := 1
@@ -316,7 +345,7 @@ func run(prop, tier string) int {
 				inconclusive = true
 			}
 		} else if r.exit != 0 && !hadViolation {
-			fmt.Fprintf(os.Stderr, "shard %d: exit %d without a VIOLATION line (harness problem, see %s)\n", r.shard, r.exit, r.log)
+			fmt.Fprintf(os.Stderr, "shard %d: exit %d without a VIOLATION line (harness problem, see %s)\n", r.shard, r.exit, stableName(r.log))
 			tail(r.log, 40)
 			inconclusive = true
 		}
@@ -376,6 +405,7 @@ func replay(prop, file string) int {
 		fmt.Fprintln(os.Stderr, err)
 		return 2
 	}
+	defer release(bin)
 	abs, _ := filepath.Abs(file)
 	cmd := exec.Command(bin, "-test.run=^$")
 	cmd.Dir = filepath.Join(root, "props", strings.ToLower(prop))
@@ -406,10 +436,13 @@ func setup() int {
 			continue
 		}
 		prop := strings.ToUpper(e.Name())
-		if _, err := build(prop, loadCfg(prop)); err != nil {
+		bin, err := build(prop, loadCfg(prop))
+		if err != nil {
 			fmt.Fprintf(os.Stderr, "%s: %v\n", prop, err)
 			code = 1
+			continue
 		}
+		release(bin)
 	}
 	return code
 }
